@@ -425,10 +425,20 @@ def apply_storage(case, records, root: Path):
                 shutil.copy(str(src) + ".zip", str(dst) + ".zip")
 
 
+def zlib_crc(text):
+    import zlib
+    return zlib.crc32(text.encode())
+
+
 def store_one(folder: Path, how):
     z = Path(str(folder) + ".zip")
     if not z.exists() or not folder.exists():
         return
+    if zlib_crc(folder.name) % 4 == 0:
+        # what a process killed while compressing this folder once left behind: a truncated temporary archive.
+        # It is not an archive of a fit; loading ignores it.
+        data = z.read_bytes()
+        Path(str(z) + ".tmp").write_bytes(data[: max(1, len(data) // 2)])
     if how == "zip":
         shutil.rmtree(folder)
     elif how == "folder":
